@@ -153,6 +153,9 @@ def execute(mod, cfg, desc, ops=None, rng=None, seed=None) -> RunResult:
 def run_seed(mod, seed: int, tier: str) -> RunResult:
     rng = random.Random(seed)
     cfg, desc = mod.new_run(rng, tier)
+    # a configuration knob of the whole process, from a generator of its own (derived from
+    # the same seed) so that it does not shift the draws of the run: the toolbox's log level
+    cfg.setdefault('debug_log', random.Random(seed * 7919 + 17).random() < 0.1)
     return execute(mod, cfg, desc, ops=None, rng=rng, seed=seed)
 
 
